@@ -170,6 +170,31 @@ theorem statesOf_get (fs : FS) (ops : List Op) (i : Nat) (hi : i < ops.length) :
       have hi' : i < r.length := by simpa using hi
       simpa [statesOf, runOps] using ih (o.apply fs) i hi'
 
+/-! ## the driver's summary flag is sound -/
+
+theorem Op.onlyB_only (t : Path) (o : Op) (h : o.onlyB t = true) : o.only t := by
+  cases o <;> simp_all [Op.onlyB, Op.only]
+
+/-- `midOnly` of the driver: if every operation before the last has an effect on `t` only, every state
+before the last operation agrees with the start outside `t` -/
+theorem midOnly_sound (t : Path) (ops : List Op) (fs : FS) (h : ops.dropLast.all (Op.onlyB t) = true)
+    (i : Nat) (hi : i < ops.length) (q : Path) (hq : q ≠ t) : runOps fs (ops.take i) q = fs q := by
+  have htake : ops.take i = ops.dropLast.take i := by
+    rw [List.dropLast_eq_take, List.take_take]
+    congr 1
+    omega
+  rw [htake]
+  refine runOps_only t _ fs (fun o ho => Op.onlyB_only t o ?_) q hq
+  exact (List.all_eq_true.1 h) o (List.mem_of_mem_take ho)
+
+/-- the flag is true for the program of `_open_output` -/
+theorem program_midOnly (n : Nat) (chunks : List Nat) (crash : Crash) :
+    (program (.out n) chunks crash).1.dropLast.all (Op.onlyB (.tmp n)) = true := by
+  simp only [program, tmpOf_out, List.dropLast_concat, List.all_eq_true]
+  intro o ho
+  have := bodyOps_only (.tmp n) chunks crash o ho
+  cases o <;> simp_all [Op.onlyB, Op.only]
+
 /-! ## exact final state of a history -/
 
 /-- the last run of a history (runs paired with their outcomes) that completed for output file `n` -/
